@@ -17,7 +17,8 @@ import subprocess
 import sys
 
 ROOT = os.path.dirname(os.path.dirname(os.path.abspath(__file__)))
-REPO = os.environ.get("VERIF_REPO", "/repo")      # a snapshot of the repository when run through `vp run --with-repo`
+REPO = os.environ.get("VERIF_REPO") or os.environ.get("VP_RUN_REPO") or "/repo"      # a snapshot of the repository when run through `vp run --with-repo`
+os.environ["VERIF_REPO"] = REPO      # the checks started from here look at the same tree
 WT = "/tmp/sv-worktree" + os.environ.get("SV_TAG", "")
 TARGET = "/tmp/sv-target" + os.environ.get("SV_TAG", "")
 
